@@ -69,6 +69,7 @@ func planC12(tier string, root *simcore.RNG) *plan {
 	entries := []entry{
 		{"script3", "stl", "", 0, 1000}, {"script3", "stl", "", 0, 300}, {"script3", "3mf", "", 0, 1000},
 		{"script2", "dxf", "", 0, 600}, {"script2", "svg", "", 0, 600},
+		{"script3", "stl", "", 0, 0}, {"script3", "3mf", "", 0, 0}, {"script2", "dxf", "", 0, 0}, {"script2", "svg", "", 0, 0}, {"script3", "stl", "", 0, 1},
 		{"mco", "stl", "sphere-box", 12, 0}, {"mcu", "stl", "csg", 10, 0}, {"mco", "3mf", "csg", 10, 0},
 		{"msu", "dxf", "circle-box", 24, 0}, {"msq", "svg", "poly", 24, 0}, {"dc2", "dxf", "poly", 16, 0},
 	}
@@ -234,6 +235,9 @@ func planC12(tier string, root *simcore.RNG) *plan {
 			j2 := Job{Kind: "script2", Sink: pick(r, []string{"dxf", "svg"}), N: n2, Batches: genPartition(r, n2, 1, "fives"), Coords: "index"}
 			j2.Fault = Fault{Kind: pick(r, []string{"", "nodir", "devfull", "isdir"})}
 			block = append(block, j2)
+			// renders that produce no output at all
+			block = append(block, Job{Kind: "script3", Sink: pick(r, []string{"tri", "stl", "3mf"}), N: 0, Batches: [][]Run{{}}, Coords: "index"})
+			block = append(block, Job{Kind: "script2", Sink: pick(r, []string{"dxf", "svg"}), N: 0, Batches: [][]Run{{}}, Coords: "index"})
 		}
 		for i := len(block) - 1; i > 0; i-- { // seeded order
 			k := r.Intn(i + 1)
